@@ -17,6 +17,11 @@ pub(crate) const INDEX_ENTRY_SIZE: u64 = 12;
 /// File id alias
 pub type FileId = u32;
 
+/// verif hook: when non-zero, overrides the data-file size limit of every builder created
+/// afterwards, so that `Freezer::open` reaches file roll-overs with small items.
+#[cfg(feature = "verif-hooks")]
+pub static VERIF_MAX_FILE_SIZE: AtomicU64 = AtomicU64::new(0);
+
 pub(crate) struct Head {
     pub(crate) file: File,
     // number of bytes written to the head file
@@ -370,6 +375,18 @@ pub struct FreezerFilesBuilder {
 impl FreezerFilesBuilder {
     /// Generates the base configuration for a new freezer instance
     pub fn new(file_path: PathBuf) -> Self {
+        #[cfg(feature = "verif-hooks")]
+        {
+            let max = VERIF_MAX_FILE_SIZE.load(Ordering::SeqCst);
+            if max != 0 {
+                return FreezerFilesBuilder {
+                    file_path,
+                    max_file_size: max,
+                    enable_compression: true,
+                    open_files_limit: OPEN_FILES_LIMIT,
+                };
+            }
+        }
         FreezerFilesBuilder {
             file_path,
             max_file_size: MAX_FILE_SIZE,
